@@ -22,8 +22,10 @@ pub proof fn axiom_price_at()
     requires tick_ok(tick as int),
     ensures r as int == price_at(tick as int), price_ok(r as int),
 //@ end
+/// the tick of a sqrt-price (C09 proves: tick_inverse::inv_spec, the unique floor tick)
+pub uninterp spec fn tick_of(p: int) -> int;
 //@ fn math/tick_math.rs tick_index_from_sqrt_price -> r stub
     requires price_ok(*sqrt_price_x64 as int),
-    ensures tick_ok(r as int), price_at(r as int) <= *sqrt_price_x64 as int, r < 443636 ==> (*sqrt_price_x64 as int) < price_at(r as int + 1),
+    ensures r as int == tick_of(*sqrt_price_x64 as int), tick_ok(r as int), price_at(r as int) <= *sqrt_price_x64 as int, r < 443636 ==> (*sqrt_price_x64 as int) < price_at(r as int + 1),
 //@ end
 }
